@@ -492,6 +492,7 @@ def run(ctx):
       "matrix_inverse_pth_root on the observed statistics (counts in distribution)",
       "XLA/JAX execution (jit, pmap, lax.cond, efficient_cond) is observed, not modelled"]
   ctx.proofs(PROPS)
+  translator_obligations(ctx)
   groups = gen_groups(ctx)
   corpus = load_corpus()
   for k, c in enumerate(corpus):
@@ -515,6 +516,37 @@ def run(ctx):
   ctx.log("coq evaluation + oracle done")
   report(ctx, findings, known=known, known_gids=known_gids)
   ctx.flush_proof_failures()
+
+
+def translator_obligations(ctx):
+  """Regenerate the translation of the four acceptance gates from /repo and re-prove it equal to C03.Ref
+  (linked to the model's skip/select by c03_source_gates_are_model)."""
+  from tools import py2v_gate
+  try:
+    src = open(os.path.join(common.REPO, "precondition", "distributed_shampoo.py")).read()
+  except OSError as e:
+    ctx.proof_failure("read distributed_shampoo.py", repr(e))
+    return
+  text, errors = py2v_gate.generate(src)
+  ctx.cov["obligations"] += 1 + len(py2v_gate.NAMES)
+  if errors:
+    ctx.proof_failure("translate the acceptance gates (_skip/_select_preconditioner x3, sharded predicate)",
+                      json.dumps(errors))
+    return
+  ok, out = ctx.gen_obligation("Gen", text)
+  if not ok:
+    ctx.proof_failure("compile gen/C03/Gen.v (translation of the acceptance gates)", out[-2000:])
+    return
+  ctx.cov["discharged"] += 1
+  for name in py2v_gate.NAMES:
+    ob = ("From Precond Require Import C03.FloatCls.\nFrom Precond Require C03.Ref.\n"
+          "From PrecondGen Require C03.Gen.\n"
+          "Lemma gen_eq_%s : @C03.Gen.%s = @C03.Ref.%s.\nProof. reflexivity. Qed.\n" % (name, name, name))
+    ok, out = ctx.gen_obligation("GenEq_" + name, ob)
+    if ok:
+      ctx.cov["discharged"] += 1
+    else:
+      ctx.proof_failure("GenEq_%s (Gen = Ref)" % name, out[-2000:])
 
 
 def replay(ctx, rec):
